@@ -188,21 +188,21 @@ def _mark_nontrivial(case, rec, ev):
 
 
 # quick: ~35 ms of ANTLR parsing per JavaScript expression, ~0 for parameter references
-@prop.given("param-refs", exprgen.param_ref_cases(), quick=3000, thorough=60000, setup=_setup, teardown=_teardown)
+@prop.given("param-refs", exprgen.param_ref_cases(), quick=1500, thorough=60000, setup=_setup, teardown=_teardown)
 def check_param_refs(case, rec):
     _judge(case, rec)
 
 
-@prop.given("js-plain", exprgen.js_plain_cases(), quick=2000, thorough=60000, setup=_setup, teardown=_teardown)
+@prop.given("js-plain", exprgen.js_plain_cases(), quick=1200, thorough=60000, setup=_setup, teardown=_teardown)
 def check_js_plain(case, rec):
     _judge(case, rec)
 
 
-@prop.given("js-shapes", exprgen.js_shape_cases(), quick=600, thorough=12000, setup=_setup, teardown=_teardown)
+@prop.given("js-shapes", exprgen.js_shape_cases(), quick=400, thorough=12000, setup=_setup, teardown=_teardown)
 def check_js_shapes(case, rec):
     _judge(case, rec)
 
 
-@prop.given("js-dynamic", exprgen.js_dynamic_cases(), quick=240, thorough=4000, setup=_setup, teardown=_teardown)
+@prop.given("js-dynamic", exprgen.js_dynamic_cases(), quick=160, thorough=4000, setup=_setup, teardown=_teardown)
 def check_js_dynamic(case, rec):
     _judge(case, rec, dynamic=True)
